@@ -89,7 +89,7 @@ func (cc *Chaincode) validateAndExtractInvocationContext(
 	// Form a message to verify the signature.
 	message := []byte(fn + strings.Join(args[:len(args)-invocation.signersCount], ""))
 
-	if err = validateSignaturesInInvocation(invocation, message); err != nil {
+	if err = validateSignaturesInInvocation(invocation, message, requiredSignatures(acl, invocation.signersCount)); err != nil {
 		return nil, nil, 0, err
 	}
 
@@ -109,10 +109,23 @@ func (cc *Chaincode) validateAndExtractInvocationContext(
 	return acl.GetAddress().GetAddress(), invArgs, nonce, nil
 }
 
+// requiredSignatures returns how many of the presented keys must carry a valid
+// signature: the N of the account's signature policy, and never fewer than one
+// (all presented keys when the policy does not fit the presented key list).
+func requiredSignatures(acl *pb.AclResponse, signersCount int) int {
+	n := int(acl.GetAddress().GetSignaturePolicy().GetN())
+	if n <= 0 || n > signersCount {
+		return signersCount
+	}
+	return n
+}
+
 func validateSignaturesInInvocation(
 	invocation *invocationDetails,
 	message []byte,
+	required int,
 ) error {
+	verified := 0
 	for i := 0; i < invocation.signersCount; i++ {
 		if invocation.signatureArgs[i+invocation.signersCount] == "" {
 			continue // Skip the blank signatures.
@@ -131,6 +144,10 @@ func validateSignaturesInInvocation(
 		if !valid {
 			return errors.New("incorrect signature")
 		}
+		verified++
+	}
+	if verified < required {
+		return fmt.Errorf("not enough signatures: %d valid, %d required", verified, required)
 	}
 	return nil
 }
